@@ -387,6 +387,12 @@ pub fn run(ctx: &Ctx, replay: Option<&J>, idem: bool) -> i32 {
     ] {
         progs.push(Prog { src: s.to_string(), class: "literal-family".into() });
     }
+    {
+        let (plain, with_comments) = crate::c09::size_family(thorough);
+        for s in plain.into_iter().chain(with_comments) {
+            progs.push(Prog { src: s, class: "size-family".into() });
+        }
+    }
     for (name, text) in corpus() {
         // whole files and each statement alone
         progs.push(Prog { src: text.clone(), class: format!("corpus:{}", name) });
@@ -507,7 +513,7 @@ pub fn run(ctx: &Ctx, replay: Option<&J>, idem: bool) -> i32 {
         if idem {
             "same programs and widths as C07 plus statement sequences with comments and 0..5 blank lines; for every distinct output of every (program, width): format(output, width) == output; through format_blots (native shim) and blots --format; distinct = distinct programs"
         } else {
-            "reference renderings of every tree of the generator families (every kind; parent x child in every slot; every kind x slot x 13 literal leaves; punctuation-string operands under every parenthesis-requiring wrapper; thorough: full slot products, depth-3 spines over all kinds, depth-4 spines over class representatives), literal families, the corpus and comment/blank-line sequences x every width 1..saturation bound plus None; every distinct output re-parsed and compared statement by statement (AST PartialEq, spans ignored) with the input; through format_blots (native shim) and blots --format; distinct = distinct programs"
+            "reference renderings of every tree of the generator families (every kind; parent x child in every slot; every kind x slot x 13 literal leaves; punctuation-string operands under every parenthesis-requiring wrapper; thorough: full slot products, depth-3 spines over all kinds, depth-4 spines over class representatives), literal families, a size family (containers, calls, parameter lists, chains, statement sequences, strings and nestings of 10 / 38 / 100, thorough 9..257, elements or levels), the corpus and comment/blank-line sequences x every width 1..saturation bound plus None; every distinct output re-parsed and compared statement by statement (AST PartialEq, spans ignored) with the input; through format_blots (native shim) and blots --format; distinct = distinct programs"
         },
         true,
         Some((stats.states, stats.transitions, stats.transitions)).filter(|_| false),
